@@ -199,6 +199,34 @@ try:
     out["interconnect"] = {"clocked": clocked, "with_reset": with_reset}
 except Exception as e:  # noqa: BLE001
     out["interconnect"] = {"error": f"{type(e).__name__}: {str(e)[:120]}"}
+
+# (e) ------------------------------------------------------------------------------------------------------------
+# "an embedded coroutine returns to its first state": the reset branch assigns the first state to the state signal, which is
+# also the state signal's power-up value
+out["coroutine"] = []
+for is_async, active_low in itertools.product((False, True), (False, True)):
+    class CoTop(Entity):
+        clk = Port.input(Bit)
+        rst = Port.input(Bit)
+        go = Port.input(Bit)
+        q = Port.output(Bit, default=False)
+
+        def architecture(self):
+            @std.sequential(std.Clock(self.clk), std.Reset(self.rst, active_low=active_low, is_async=is_async))
+            async def worker():
+                await self.go
+                self.q <<= True
+                await std.wait_for(2)
+                self.q <<= False
+
+    try:
+        t = std.VhdlCompiler.to_string(CoTop)
+        decl = re.search(r"signal (s_\w+) : (\w+) := (\w+);", t)
+        in_reset = [l for br in reset_branches(t) for l in br]
+        out["coroutine"].append({"async": is_async, "active_low": active_low, "state_signal": decl.group(1) if decl else None, "initial": decl.group(3) if decl else None,
+                                 "reset_assigns": [l for l in in_reset if decl and l.startswith(decl.group(1) + " <=")]})
+    except Exception as e:  # noqa: BLE001
+        out["coroutine"].append({"async": is_async, "active_low": active_low, "error": f"{type(e).__name__}: {str(e)[:120]}"})
 print("RESULT" + json.dumps(out))
 '''
 
@@ -238,6 +266,12 @@ def reset_config_sweep(tier="quick", seed=0):
         return {"problems": ["reset_config_sweep: no clocked process found in the interconnect design"]}
     if sorted(e["clocked"]) != sorted(e["with_reset"]):
         fails.setdefault("interconnect", f"clocked processes of the AXI interconnect {e['clocked']}, of these in the reset domain of the master interface: {e['with_reset']}")
+    for e in data.get("coroutine", []):
+        n += 1
+        if "error" in e or not e.get("state_signal"):
+            return {"problems": [f"reset_config_sweep: coroutine (async={e['async']}, active_low={e['active_low']}): " + (e.get("error") or "no state signal declaration found")]}
+        if e["reset_assigns"] != [f"{e['state_signal']} <= {e['initial']};"]:
+            fails.setdefault("coroutine-state", f"coroutine under reset (async={e['async']}, active_low={e['active_low']}): state signal {e['state_signal']} powers up in {e['initial']}, the reset branch assigns {e['reset_assigns']}")
     violations = []
     for key, what in sorted(fails.items()):
         oid = f"C04/reset-config-sweep[{key}]#bounded"
